@@ -216,6 +216,8 @@ fn err_kind(e: &parser::ParseError) -> &'static str {
         "slotdefault"
     } else if m.starts_with("User_Prm_Data has maximum length") {
         "prmlen"
+    } else if m == "missing value after the index in parentheses" {
+        "missing"
     } else {
         "?"
     }
